@@ -3,7 +3,7 @@
 -/
 import TwModel
 import TwProofs.Lemmas.EvalStep
-import TwProofs.C04
+import TwProofs.Lemmas.SimpleBlock
 
 namespace Tw.C17
 open Tw
@@ -184,25 +184,6 @@ theorem quiet_page_is_oops :
 
 /-! ### debug mode on: the page with its holes filled -/
 
-/-- text and plain variables only -/
-def simpleBlock : List Stmt → Bool
-  | [] => true
-  | .html _ :: r => simpleBlock r
-  | .expr _ (.ident _ _) :: r => simpleBlock r
-  | _ => false
-
-/-- a piece of fixed text, or the place where a variable is printed -/
-inductive Piece where
-  | text (t : Bytes)
-  | hole (name : Bytes)
-  deriving DecidableEq
-
-def piecesOf : List Stmt → List Piece
-  | [] => []
-  | .html t :: r => .text t.lit :: piecesOf r
-  | .expr _ (.ident _ n) :: r => .hole n :: piecesOf r
-  | _ :: r => piecesOf r
-
 /-- text, or `@if(debugMode)` with a branch of text and plain variables (and any `@else`) -/
 def debugSimple : List Stmt → Bool
   | [] => true
@@ -217,68 +198,10 @@ def debugPieces : List Stmt → List Piece
   | .ifS _ _ cons _ _ :: r => piecesOf cons ++ debugPieces r
   | _ :: r => debugPieces r
 
-def holesBound (env : Env) : List Piece → Prop
-  | [] => True
-  | .text _ :: r => holesBound env r
-  | .hole n :: r => (env.get n).isSome = true ∧ holesBound env r
-
-/-- the text with every hole replaced by the printed value of its variable -/
-def fill (env : Env) : List Piece → Bytes
-  | [] => []
-  | .text t :: r => t ++ fill env r
-  | .hole n :: r => ((env.get n).map Val.toStr).getD [] ++ fill env r
-
 def maxCons : List Stmt → Nat
   | [] => 0
   | .ifS _ _ cons _ _ :: r => max cons.length (maxCons r)
   | _ :: r => maxCons r
-
-theorem holesBound_append (env : Env) : ∀ (a c : List Piece), holesBound env (a ++ c) ↔ holesBound env a ∧ holesBound env c
-  | [], c => by simp [holesBound]
-  | .text _ :: r, c => by simp [holesBound, holesBound_append env r c]
-  | .hole _ :: r, c => by simp [holesBound, holesBound_append env r c, and_assoc]
-
-theorem fill_append (env : Env) : ∀ (a c : List Piece), fill env (a ++ c) = fill env a ++ fill env c
-  | [], c => by simp [fill]
-  | .text _ :: r, c => by simp [fill, fill_append env r c]
-  | .hole _ :: r, c => by simp [fill, fill_append env r c]
-
-theorem fill_push (env : Env) : ∀ ps : List Piece, fill env.push ps = fill env ps
-  | [] => rfl
-  | .text _ :: r => by simp [fill, fill_push env r]
-  | .hole n :: r => by simp [fill, fill_push env r, C04.nested_block_sees_outer]
-
-theorem holesBound_push (env : Env) : ∀ ps : List Piece, holesBound env ps → holesBound env.push ps
-  | [], _ => trivial
-  | .text _ :: r, h => holesBound_push env r h
-  | .hole n :: r, h => ⟨by rw [C04.nested_block_sees_outer]; exact h.1, holesBound_push env r h.2⟩
-
-theorem evalBlock_simple (c : Ctx) (env : Env) : ∀ (ss : List Stmt) (fuel : Nat), simpleBlock ss = true →
-    holesBound env (piecesOf ss) → ss.length + 2 ≤ fuel →
-    evalBlock (fuel + 1) c env ss = .ok ({ text := fill env (piecesOf ss) }, env) := by
-  intro ss
-  induction ss with
-  | nil => intro fuel _ _ _; rw [evalBlock_nil]; simp [piecesOf, fill]
-  | cons s r ih =>
-    intro fuel hs hb hf
-    obtain ⟨f, rfl⟩ : ∃ f, fuel = f + 2 := ⟨fuel - 2, by simp at hf; omega⟩
-    cases s with
-    | html t =>
-      have := ih (f + 1) (by simpa [simpleBlock] using hs) (by simpa [piecesOf, holesBound] using hb) (by simp at hf; omega)
-      rw [evalBlock_cons, show f + 2 = (f + 1) + 1 from rfl, evalStmt_html]
-      simp only [Res.bind_ok, Bool.false_eq_true, Bool.or_self, if_false, this, piecesOf, fill]
-    | expr t e =>
-      cases e with
-      | ident t2 n =>
-        have hb' : (env.get n).isSome = true ∧ holesBound env (piecesOf r) := by simpa [piecesOf, holesBound] using hb
-        obtain ⟨v, hv⟩ := Option.isSome_iff_exists.mp hb'.1
-        have := ih (f + 1) (by simpa [simpleBlock] using hs) hb'.2 (by simp at hf; omega)
-        rw [evalBlock_cons, show f + 2 = (f + 1) + 1 from rfl, evalStmt_succ]
-        simp only [stmtBody, calleesAt_expr, evalExpr, hv, Res.bind_ok, Bool.false_eq_true, Bool.or_self, if_false]
-        rw [show f + 1 + 1 = (f + 1) + 1 from rfl, this]
-        simp [piecesOf, fill, hv]
-      | _ => simp [simpleBlock] at hs
-    | _ => simp [simpleBlock] at hs
 
 /-- **debug mode on**: a program of the guarded shape renders to its text with the holes filled -/
 theorem evalProg_debug (c : Ctx) (env : Env) (hdbg : env.get (b "debugMode") = some (.bool true)) :
